@@ -6,18 +6,18 @@ set -e
 WT=$1; ID=$2; PROP=$3
 cd "$WT"
 git checkout -q -- src
-mkdir -p /tmp/seedtmp && mv tests/seeded_demo.rs /tmp/seedtmp/seeded_demo.rs
+mkdir -p /tmp/seedtmp_$ID && mv tests/seeded_demo.rs /tmp/seedtmp_$ID/seeded_demo.rs
 git apply patch.diff
 echo "== suite with change (demo moved aside)"
-cargo test --offline 2>&1 | grep -E "^test result" | awk '{p+=$4; f+=$6} END {print "passed", p, "failed", f}' | tee /tmp/seedtmp/suite.txt
-mv /tmp/seedtmp/seeded_demo.rs tests/seeded_demo.rs
+cargo test --offline 2>&1 | grep -E "^test result" | awk '{p+=$4; f+=$6} END {print "passed", p, "failed", f}' | tee /tmp/seedtmp_$ID/suite.txt
+mv /tmp/seedtmp_$ID/seeded_demo.rs tests/seeded_demo.rs
 echo "== demo with change"
-(cargo test --offline --test seeded_demo 2>&1 | grep -E "^test result" || true) | tee /tmp/seedtmp/demo_with.txt
+(cargo test --offline --test seeded_demo 2>&1 | grep -E "^test result" || true) | tee /tmp/seedtmp_$ID/demo_with.txt
 git checkout -q -- src
 echo "== demo without change"
-(cargo test --offline --test seeded_demo 2>&1 | grep -E "^test result" || true) | tee /tmp/seedtmp/demo_without.txt
+(cargo test --offline --test seeded_demo 2>&1 | grep -E "^test result" || true) | tee /tmp/seedtmp_$ID/demo_without.txt
 mkdir -p /verif/seeded/$ID
 cp patch.diff /verif/seeded/$ID/patch.diff
 cp tests/seeded_demo.rs /verif/seeded/$ID/seeded_demo.rs
-cat /tmp/seedtmp/suite.txt /tmp/seedtmp/demo_with.txt /tmp/seedtmp/demo_without.txt > /verif/seeded/$ID/confirmation.txt
+cat /tmp/seedtmp_$ID/suite.txt /tmp/seedtmp_$ID/demo_with.txt /tmp/seedtmp_$ID/demo_without.txt > /verif/seeded/$ID/confirmation.txt
 echo "$PROP" > /verif/seeded/$ID/property.txt
